@@ -81,7 +81,7 @@ func init() {
 	})
 	registerCheck(&CheckDef{Prop: "C03", Level: "model_checking", Technique: "explicit-state BFS over the real ClusterContext (bounded op sequences, canonical-state dedup)",
 		Quick:          []Run{{Scenario: "acct-basic-fair", Depth: 6, MapModes: []int{1}}, {Scenario: "gang-acct-Soft", Depth: 6, MapModes: []int{1}}, {Scenario: "gang-acct-Hard", Depth: 6, MapModes: []int{1}}, {Scenario: "reserve-acct", Depth: 6, MapModes: []int{1}}, {Scenario: "gang-acct-same", Depth: 6, MapModes: []int{1}}, {Scenario: "acct-bind", Depth: 6, MapModes: []int{1}}},
-		Thorough:       []Run{{Scenario: "acct-bind", Depth: 9, MapModes: []int{1}}, {Scenario: "gang-acct-same", Depth: 9, MapModes: []int{1}}, {Scenario: "acct-basic-fair", Depth: 9, MapModes: []int{1, 2}}, {Scenario: "gang-acct-Soft", Depth: 9, MapModes: []int{1, 2}}, {Scenario: "gang-acct-Hard", Depth: 9, MapModes: []int{1}}, {Scenario: "reserve-acct", Depth: 9, MapModes: []int{1, 2}}},
+		Thorough:       []Run{{Scenario: "acct-bind", Depth: 6, MapModes: []int{1}}, {Scenario: "gang-acct-same", Depth: 9, MapModes: []int{1}}, {Scenario: "acct-basic-fair", Depth: 9, MapModes: []int{1, 2}}, {Scenario: "gang-acct-Soft", Depth: 9, MapModes: []int{1, 2}}, {Scenario: "gang-acct-Hard", Depth: 9, MapModes: []int{1}}, {Scenario: "reserve-acct", Depth: 9, MapModes: []int{1, 2}}},
 		QuickBudget:    150 * time.Second,
 		ThoroughBudget: 12 * time.Minute,
 	})
